@@ -417,7 +417,22 @@ fn gen_query(rng: &mut Rng, lang: &Language, tree: &Tree, text: &[u8]) -> Option
         // one of the last siblings of a wide parent — many matches stay in progress at once, which
         // is what makes small match limits steal capture lists.
         let wide: Vec<&&Node> = named.iter().filter(|n| n.named_child_count() >= 4 && !n.is_error()).collect();
-        let body = if !wide.is_empty() && rng.chance(1, 4) {
+        let zw: Vec<&Node> = nodes.iter().filter(|n| n.start_byte() == n.end_byte() && !n.is_error()).collect();
+        let body = if !zw.is_empty() && rng.chance(1, 4) {
+            // a pattern rooted at a zero-width node (MISSING token, empty rule or external token)
+            let z = **rng.pick(&zw);
+            if z.is_missing() {
+                match rng.below(3) {
+                    0 => "(MISSING)".to_string(),
+                    1 if !z.is_named() => quote(z.kind()),
+                    _ => if z.is_named() { format!("(MISSING {})", z.kind()) } else { format!("(MISSING {})", quote(z.kind())) },
+                }
+            } else if z.is_named() {
+                format!("({})", z.kind())
+            } else {
+                quote(z.kind())
+            }
+        } else if !wide.is_empty() && rng.chance(1, 4) {
             let p = **rng.pick(&wide);
             let mut cur = p.walk();
             let kids: Vec<Node> = p.named_children(&mut cur).collect();
@@ -576,9 +591,14 @@ fn emit_preds(out: &mut impl Write, q: &Query, qtext: &str) {
 
 // ---------------------------------------------------------------- one case
 
-fn rand_point_range(rng: &mut Rng, text: &[u8], bounds: &[usize]) -> (usize, usize) {
+fn rand_point_range(rng: &mut Rng, text: &[u8], bounds: &[usize], zero_width: &[usize]) -> (usize, usize) {
     let n = text.len();
     let pos = |rng: &mut Rng| -> usize {
+        // positions of zero-width nodes (MISSING tokens, empty rules / external tokens) exactly:
+        // the range conventions for them are the delicate part of range_intersects / range_within
+        if !zero_width.is_empty() && rng.chance(2, 5) {
+            return *rng.pick(zero_width);
+        }
         match rng.below(5) {
             0 => rng.below(n + 3),
             _ if !bounds.is_empty() => (*rng.pick(bounds) + rng.below(3)).saturating_sub(1),
@@ -641,6 +661,9 @@ fn emit_case(out: &mut impl Write, cid: &str, lang_id: &str, lang: &Language, pa
     let mut bounds: Vec<usize> = nodes.iter().flat_map(|n| [n.start_byte(), n.end_byte()]).collect();
     bounds.sort();
     bounds.dedup();
+    let mut zero_width: Vec<usize> = nodes.iter().filter(|n| n.start_byte() == n.end_byte()).map(|n| n.start_byte()).collect();
+    zero_width.sort();
+    zero_width.dedup();
     writeln!(out, "spec {cid} {lang_id} {} {} {} {caseseed}", if text.is_empty() { "-".into() } else { hex(text) }, hex(q0t.as_bytes()), hex(qt.as_bytes())).unwrap();
     writeln!(out, "case {cid}").unwrap();
     writeln!(out, "text {}", hex(text)).unwrap();
@@ -677,7 +700,7 @@ fn emit_case(out: &mut impl Write, cid: &str, lang_id: &str, lang: &Language, pa
     // (b) ranges; the cursor `cur` is reused for all of them (history), then checked against U again
     let nr = if thorough { 8 } else { 4 };
     for i in 0..nr {
-        let (mut a, mut b) = rand_point_range(&mut rng, text, &bounds);
+        let (mut a, mut b) = rand_point_range(&mut rng, text, &bounds, &zero_width);
         let mut mode_contain = rng.chance(1, 3);
         let mut use_point = rng.chance(1, 2);
         if let Ok(o) = std::env::var("C11_RANGE") {
@@ -720,6 +743,24 @@ fn emit_case(out: &mut impl Write, cid: &str, lang_id: &str, lang: &Language, pa
         let (rc, _) = run_captures(&mut cur2, &q0, &tree, text, &cfg, &mut ids, None, None);
         emit_m(out, &format!("R{i}"), &r);
         emit_c(out, &format!("RC{i}"), &rc);
+        {
+            // (p) the same restriction expressed in the other unit (bytes <-> points of the same
+            // positions) must select the same matches and captures
+            let mut other = Cfg::default();
+            match (mode_contain, use_point) {
+                (false, false) => other.point = Some((pa, pb)),
+                (false, true) => other.byte = Some((a, b)),
+                (true, false) => other.cpoint = Some((pa, pb)),
+                (true, true) => other.cbyte = Some((a, b)),
+            }
+            let (q, _) = run_matches(&mut cur, &q0, &tree, text, &other, &mut ids, None);
+            let (qc, _) = run_captures(&mut cur2, &q0, &tree, text, &other, &mut ids, None, None);
+            emit_m(out, &format!("Q{i}"), &q);
+            emit_c(out, &format!("QC{i}"), &qc);
+            writeln!(out, "chk p R{i} Q{i} {kind} {a} {b}").unwrap();
+            writeln!(out, "chk p RC{i} QC{i} {kind} {a} {b}").unwrap();
+            st.checks += 2;
+        }
         writeln!(out, "chk b U R{i} {kind} {rdesc}").unwrap();
         if mode_contain {
             writeln!(out, "chk a R{i} RC{i} n 0 0 0 0 0 0").unwrap();
@@ -909,6 +950,11 @@ fn main() {
             let (mut text, _bounds) = gg.render(&toks, &mut rng);
             if d % 3 == 2 {
                 text = gen::mutate_bytes(&mut rng, &text);
+            } else if d % 3 == 1 && text.len() > 4 {
+                // truncated at a random position: dropped closers / operands make the parser insert
+                // MISSING (zero-width) tokens
+                let cut = rng.range(text.len() / 2, text.len() - 1);
+                text.truncate(cut);
             }
             if text.len() > 600 {
                 text.truncate(600);
